@@ -345,7 +345,7 @@ type directObs struct {
 	Res      *mval
 	ResErr   string
 	Msg      string
-	After    *mval // the input read back after the call
+	After    *mval  // the input read back after the call
 	Alias    string // non-empty: two casts of one source at different list types share storage
 }
 
@@ -928,7 +928,6 @@ func c12HostOutcome(ex c12Expect, t *mtype, v *mval, o Obs, hp string, tags []st
 	fails = append(fails, admittedCheck()...)
 	return "admitted"
 }
-
 
 func c12SpawnRet(tier string, idx int, r *Result) {
 	v, t := c12Universe(tier).pair(idx)
